@@ -4,7 +4,8 @@ Tie: per filter, argument tuples of the documented types are applied to the
 real filter twice -- through `RenderContext.filter(name)(left, *args)` (the
 callable a render uses, with its context/environment keywords bound) and
 through `render('{{ x | f: a0, a1 | cap19 }}')` (parser, argument evaluation,
-exception translation of `Filter.evaluate`; `cap19` is a harness filter that
+exception translation of `Filter.evaluate`: TypeError, ValueError and ArithmeticError
+become LiquidTypeError; `cap19` is a harness filter that
 records the value it receives) -- and the Coq models
 Kernels/FiltersSeq.v, FiltersStr.v, FiltersNum.v are evaluated on the same
 arguments with vm_compute; outcomes (value with its Python types, or error
@@ -109,7 +110,7 @@ def c_outcome(o: tuple) -> str:
 
 
 def c_case(model: str, o: tuple, via_render: bool) -> str:
-    m = f"(type_error_to_liquid ({model}))" if via_render else f"({model})"
+    m = f"(as_rendered ({model}))" if via_render else f"({model})"
     if o[0] == "ok" and isinstance(o[1], float) and o[1] != 0.0 and math.isfinite(o[1]):
         lo, hi, incl = float_interval(o[1])
         return (f"(float_matches {m} ({C.cZ(lo[0])}, {C.cZ(lo[1])}) ({C.cZ(hi[0])}, {C.cZ(hi[1])}) "
@@ -226,7 +227,9 @@ def lam_src(name: str, key: str, with_value: bool) -> str:
 
 def to_render(o: tuple) -> tuple:
     """What Filter.evaluate makes of a direct-call outcome."""
-    return ("lerr", "LiquidTypeError") if o == ("pyexc", "TypeError") else o
+    converted = ("TypeError", "ValueError", "UnicodeError", "OverflowError", "ZeroDivisionError",
+                 "DecimalInvalidOperation")
+    return ("lerr", "LiquidTypeError") if o[0] == "pyexc" and o[1] in converted else o
 
 
 # ------------------------------------------------------------------ generators
@@ -1225,6 +1228,11 @@ FIXED_WITNESSES: list[tuple[str, str, dict, str]] = [
     ("float-modulo-decimal-InvalidOperation", "{{ 1 | modulo: 0.0 }}", {}, "raises LiquidTypeError"),   # C02/0004
     ("float-modulo-sign", "{{ -7.0 | modulo: 2 }}|{{ 7.5 | modulo: -2 }}", {}, "1.0|-0.5"),
     ("remove-last-at-start", "{{ 'abc' | remove_last: 'a' }}|{{ 'abc' | replace_last: 'a', 'x' }}", {}, "bc|xbc"),
+    # repaired in /repo by the C02 work (1faa9bc, 0b0af38, 8585e2b, e45da5e)
+    ("uniq-index-key-IndexError", "{{ x | uniq: 0 | join: ',' }}", {"x": ["", "ab", "", "ac"]}, ",ab"),
+    ("compact-index-key-IndexError", "{{ x | compact: 0 | join: ',' }}", {"x": ["", "ab", "c"]}, "ab,c"),
+    ("filter-ValueError-escapes-render", "{{ 12512 | split: x }}", {"x": [None]}, "raises LiquidTypeError"),
+    ("sum-inf-minus-inf", "{{ x | sum }}", {"x": ["inf", "-inf"]}, "raises LiquidTypeError"),
 ]
 
 
@@ -1426,5 +1434,5 @@ def main(chk: C.Check, build: C.Build) -> None:
         "sorted() is modelled as a stable sort over mutually comparable keys (numbers, strings); list-valued sort keys are outside the model",
         "html.unescape is a parameter of the escape_once theorems (hypothesis unescape (escape s) = s); executable only for the references html.escape emits and printable-ASCII numeric references",
         "tuples are identified with lists; dict keys are strings",
-        "the check expects proposed_fixes/C02/0004 and C02/0008 and the patches in proposed_fixes/C19 to be applied to the tree it runs against",
+        "the models transcribe /repo with the fix: commits listed in known_findings.d/C19.json (status fixed); their witnesses are re-checked on every run",
     ]
